@@ -142,6 +142,16 @@ def handleToks (args : List String) : String :=
   | .ok d => "ok " ++ serToks d.toks ++ " | " ++ optToks (d.argToks env false) ++ " | " ++ optToks (d.argToks env true)
   | _ => "not-ok"
 
+/-- `kw <token>*` -> the renderings `gen_arg_as_cxx(**kw)` / `gen_arg_as_c(**kw)` of the parsed declaration for every
+    keyword combination of `kwCombos` (C++ renderings first, then the C ones) -/
+def handleKw (args : List String) : String :=
+  let ts := (args.filter (· ≠ "")).map (fun a => reclass (decTok a))
+  match parse env ts with
+  | .ok d =>
+    "ok " ++ " ".intercalate ((kwCombos.map (fun c => optTxt (genArgK env false c.2 d)))
+      ++ (kwCombos.map (fun c => optTxt (genArgK env true c.2 d))))
+  | _ => "not-ok"
+
 /-- `meaning <token>*` -> reference C++ meaning of the token list and what Shroud's parse denotes:
     `M <name|~> <valid> <type> | D <name|~> <type>`; `M none` / `D none` when undefined -/
 def handleMeaningE (env : Env) (args : List String) : String :=
